@@ -34,6 +34,11 @@ func (r *RoutingTable) lengthOfPartCommandHandler(conn redcon.Conn, cmd redcon.C
 		return
 	}
 
+	if lengthOfPartCmd.PartID >= r.config.PartitionCount {
+		protocol.WriteError(conn, fmt.Errorf("%w: invalid partition id: %d", protocol.ErrInvalidArgument, lengthOfPartCmd.PartID))
+		return
+	}
+
 	var part *partitions.Partition
 	if lengthOfPartCmd.Replica {
 		part = r.backup.PartitionByID(lengthOfPartCmd.PartID)
@@ -59,6 +64,11 @@ func (r *RoutingTable) verifyRoutingTable(id uint64, table map[uint64]*route) er
 	// Compare partition counts to catch a possible inconsistencies in configuration
 	if r.config.PartitionCount != uint64(len(table)) {
 		return fmt.Errorf("invalid partition count: %d", len(table))
+	}
+	for partID, data := range table {
+		if partID >= r.config.PartitionCount || data == nil {
+			return fmt.Errorf("invalid route for partition id: %d", partID)
+		}
 	}
 	return nil
 }
